@@ -568,6 +568,13 @@ func evalFailPrograms() []*Program {
 			p.Outputs = []Output{{"success", O("r", E("stringToInt($.steps.a.outputs.success.s)"))}, {"other", O("q", E(sv("b")), "e", E("$.steps.a.outputs.error.v"))}}
 		}),
 		two("evalfloat", O("v", E("floatToInt(stringToFloat($.input.s))")), nil),
+		// two failures in one round: the producer's error output makes the output unresolvable and
+		// releases a step whose input cannot be evaluated
+		two("evalwait", O("v", E("stringToInt($.input.s)")), func(p *Program) { p.Steps[1].WaitFor = E("$.steps.a.outputs") }),
+		two("evalwait2", O("v", E("$.input.l[2]")), func(p *Program) {
+			p.Steps[1].WaitFor = E("$.steps.a.outputs")
+			p.Steps = append(p.Steps, Step{ID: "c", Input: O("v", E("10 / $.input.n")), WaitFor: E("$.steps.a.outputs")})
+		}),
 	}
 }
 
